@@ -86,6 +86,20 @@ def run(R, job):
             if nm in names and names[nm] != c:
                 fails.append({"input": f"head_content payloads {names[nm]!r} and {c!r}", "observed": "same name " + nm, "expected": "different content is never merged"})
             names[nm] = c
+    # names do not depend on the process-global render mode (history independence)
+    import htmltools
+    mode0 = htmltools.html_dependency_render_mode
+    try:
+        mk = lambda: core.head_content(core.Tag("script", "init()"), core.HTMLDependency("inner", "1.0", script={"src": "i.js"}, source={"subdir": "lib"}))
+        n_default = mk().name
+        htmltools.html_dependency_render_mode = "json"
+        n_json = mk().name
+        checked += 1
+        if n_default != n_json:
+            fails.append({"input": "head_content(<script>, dependency) built in the default mode and after html_dependency_render_mode = 'json'", "observed": [n_default, n_json],
+                          "expected": "the same name: equal content regardless of what happened earlier in the process"})
+    finally:
+        htmltools.html_dependency_render_mode = mode0
     doc = core.HTMLDocument(core.Tag("div", core.head_content(core.Tag("title", "T")), core.head_content(core.Tag("title", "T")), core.head_content(core.Tag("title", "U")))).render()["html"]
     if doc.count("<title>T</title>") != 1 or doc.count("<title>U</title>") != 1:
         fails.append({"input": "document with head_content(title T) twice and head_content(title U)", "observed": doc[:400], "expected": "T once, U once"})
